@@ -262,7 +262,7 @@ func main() {
 			}
 		}
 		idx := 0
-		kinds := []int{wire.Failure, wire.Garbage, wire.WrongType, wire.Oversized, wire.Truncated, wire.Close}
+		kinds := []int{wire.Failure, wire.Garbage, wire.WrongType, wire.Oversized, wire.Oversized2G, wire.Oversized4G, wire.Truncated, wire.Close}
 		for _, sh := range shapes {
 			if hungOnce {
 				break
@@ -568,7 +568,7 @@ func judge(r *ev.Run, c *ev.Case, e *env, sh shape, rec faultRec, inject func(*w
 	}
 	if runErr == nil {
 		// nil is acceptable only if the fault had no bearing and everything was delivered
-		if rec.Fault == "garbage" || rec.Fault == "failure" || rec.Fault == "wrong-type" || rec.Fault == "close" || rec.Fault == "oversized" || rec.Fault == "truncated" || strings.HasPrefix(rec.Fault, "signer-") || strings.HasPrefix(rec.Fault, "context-ends-") || strings.HasPrefix(rec.Fault, "panic-in-") || rec.Fault == "empty-generate" || rec.Fault == "empty-generate-non-nil" || rec.Fault == "failing-generate" {
+		if rec.Fault == "garbage" || rec.Fault == "failure" || rec.Fault == "wrong-type" || rec.Fault == "close" || rec.Fault == "oversized" || rec.Fault == "oversized-2g" || rec.Fault == "oversized-4g" || rec.Fault == "truncated" || strings.HasPrefix(rec.Fault, "signer-") || strings.HasPrefix(rec.Fault, "context-ends-") || strings.HasPrefix(rec.Fault, "panic-in-") || rec.Fault == "empty-generate" || rec.Fault == "empty-generate-non-nil" || rec.Fault == "failing-generate" {
 			r.Violation(c, "fault-ends-in-success:"+sig, fmt.Sprintf("Run returned nil although %s was injected at index %d (%s stage)", rec.Fault, rec.At, rec.Stage), rec)
 			return
 		}
